@@ -5644,10 +5644,13 @@ func (t *Terminal) Loop() error {
 			case actToggleWrap:
 				t.wrap = !t.wrap
 				t.clearNumLinesCache()
+				// A row clipped to the same number of lines is drawn differently
+				t.forceRerenderList()
 				req(reqList, reqHeader)
 			case actToggleMultiLine:
 				t.multiLine = !t.multiLine
 				t.clearNumLinesCache()
+				t.forceRerenderList()
 				req(reqList)
 			case actToggleHscroll:
 				// Force re-rendering of the list
